@@ -60,7 +60,7 @@ template <class T> struct Driver {
     fx::Ctx& fx; const Job<T>& j;
     const size_t n, nn, cols; const ld u;
     T *a, *b, *x; unsigned char *xp, *pp;
-    ld strict_max = 0;   // telemetry: largest residual / (c n u kappa_2 growth ||b||) among judged members
+    ld ood_worst = 0;   // telemetry: largest residual / bound among the members outside the domain (not judged)
     Driver(fx::Ctx& f, const Job<T>& jj) : fx(f), j(jj), n(jj.n), nn(jj.n * jj.n), cols(jj.k ? jj.k : 1), u(la::U<T>()) {
         fx.arena[0].paint(); fx.arena[1].paint(); fx.arena[2].paint(); fx.arena[3].paint();
         xp = fx.arena[0].place_mid(j.sizeofB, 64); x = (T*)xp;
@@ -81,7 +81,7 @@ template <class T> struct Driver {
             r = sqrtl(r); bn = sqrtl(bn);
             const ld bound = factor * bn;
             if (bound > 0 && r / bound > *worst) *worst = r / bound;
-            if (!(r <= bound)) return "column " + std::to_string(c) + ": ||A x - b||_2 = " + la::sci(r) + " > " + la::sci(bound) + " = c n u kappa_2(A) amp ||b||_2, kappa_2 = " +
+            if (!(r <= bound)) return "column " + std::to_string(c) + ": ||A x - b||_2 = " + la::sci(r) + " > " + la::sci(bound) + " = c n u kappa_2(A) growth ||b||_2, kappa_2 = " +
                                       la::sci(m.kappa) + ", growth = " + la::sci(m.growth) + ", max leading-block kappa = " + la::sci(m.lead);
         }
         // exact rational solution for the integer families with integer right-hand sides (implied by the residual bound: a cross-check of the reference)
@@ -120,7 +120,9 @@ template <class T> struct Driver {
             if (!la::is_bijection(p.data(), n)) { fx.verdict(false, 1, true, "library pivot<PivType::V>(A) is not a bijection"); return; }
             pivid = la::is_identity(p) ? 1 : 0;
         }
-        la::measure<T>(m, n, !subs, piv ? p.data() : nullptr);
+        // solve through the explicit block-recursive inverse (n > 4): see la::dom_threshold
+        const bool expl = !subs && n > 4 && (j.strat == 0 || j.strat == 1);
+        la::measure<T>(m, n, !subs, piv ? p.data() : nullptr, expl);
         const std::string fam = la::FAM_NAME[mem.fam];
         // substitution with a permutation vector: forward_subs(L, p, b) solves L y = P b; every member of perm_set(n) (thinned to 6 for n > 12)
         std::vector<la::Perm> subperms;
@@ -137,9 +139,7 @@ template <class T> struct Driver {
                 if (j.form == F_FWDP) { size_t* pv = (size_t*)pp; for (size_t i = 0; i < n; ++i) pv[i] = subperms[var][i]; }
                 if (!fx.run([&] { j.call(a, b, pp, xp); })) { memset(xp, fx::Arena::CAN, j.sizeofB); continue; }
                 Mat X; la::to_ld(x, n * cols, X);
-                const bool expl = !subs && (j.strat == 0 || j.strat == 1);   // solve through the explicit block-recursive inverse
-                ld factor = la::CONST_C * (ld)n * u * m.kappa * m.amp(expl);
-                const ld strict = la::CONST_C * (ld)n * u * m.kappa * m.strict_amp();
+                ld factor = la::CONST_C * (ld)n * u * m.kappa * m.amp();
                 Mat Beff(Brhs);
                 if (j.form == F_ADD) {   // x = x0 + A^-1 b: remove x0; the rounding of the addition is u |x| per element, i.e. A*(that) <= u ||A||_F ||x||
                     for (size_t i = 0; i < n * cols; ++i) X[i] -= X0[i];
@@ -150,10 +150,6 @@ template <class T> struct Driver {
                 if (j.form == F_FWDP) for (size_t i = 0; i < n; ++i) for (size_t c = 0; c < cols; ++c) Beff[i * cols + c] = Brhs[subperms[var][i] * cols + c];
                 ld worst = 0;
                 const std::string why = judge_cols(m.A, X, Beff, factor, m, mem, salt % 2 == 0, &worst);
-                if (m.in_domain && why.empty() && j.form != F_ADD && worst * factor > strict) {
-                    fx.route("strict.exceeds_cnu_kappa_growth." + fam);
-                    if (worst * factor / strict > strict_max) strict_max = worst * factor / strict;
-                }
                 if (m.in_domain) {
                     fx.route("dom.in." + fam);
                     if (pivid == 0) fx.route("piv.nonidentity.judged");
@@ -162,11 +158,13 @@ template <class T> struct Driver {
                 } else {
                     fx.route("dom.out." + fam);
                     fx.route(why.empty() ? "ood.would_pass" : "ood.would_fail");
+                    if (expl && m.lead <= la::dom_threshold<T>(false)) fx.route(why.empty() ? "ood.explicit_block_only.would_pass" : "ood.explicit_block_only.would_fail");
+                    if (worst > ood_worst && worst < 1.0e300L) ood_worst = worst;
                 }
                 finish();
             }
     }
-    void run_all() { for (const la::Member& mem : la::members<T>(j.group, n)) one_matrix(mem); if (strict_max > 1) fx.note("strict_max_ratio=" + la::sci(strict_max)); }
+    void run_all() { for (const la::Member& mem : la::members<T>(j.group, n)) one_matrix(mem); if (ood_worst > 0) fx.note("ood_max_ratio=" + la::sci(ood_worst)); }
 };
 template <class T> static FX_NOINLINE void run_job(fx::Ctx& fx, const Job<T>& j) { Driver<T> d(fx, j); d.run_all(); }
 
